@@ -170,11 +170,20 @@ def torch_family_nll_is_textbook_density(cls, x, _ARGS, result):
     want = ref.bernoulli_nll(x_np, p_np)
     pb = np.broadcast_to(p_np, want.shape)
     inside = bernoulli_judged_mask(pb, p.dtype if isinstance(p, torch.Tensor) else torch.float64)
+    # entries with weight 0 are meaningless by the documented contract of WeightedTensor (the value stored there - whatever fill the
+    # density was evaluated on - never enters a sum): they are not judged  [correction after the C06 repair, see DESIGN "Corrections"]
+    w = getattr(x, "weight", None)
+    if w is not None:
+        observed = np.broadcast_to(_np(w) != 0, want.shape)
+        inside = inside & observed
+        STATS["bernoulli._nll::entries_masked_not_judged"] += int((~observed).sum())
+    else:
+        observed = np.ones(want.shape, dtype=bool)
     got = _np(result.value)
     if got.shape != want.shape:
         return _fail("bernoulli/nll-entry-mismatch/shape", f"bernoulli._nll: result shape {got.shape} != {want.shape}")
     # saturated entries: must stay finite, non-negative and never exceed the true value (it is a clamp, not a density)
-    sat = ~inside & np.isfinite(pb) & (pb > 0) & (pb < 1) & ~np.isnan(want)
+    sat = ~bernoulli_judged_mask(pb, p.dtype if isinstance(p, torch.Tensor) else torch.float64) & observed & np.isfinite(pb) & (pb > 0) & (pb < 1) & ~np.isnan(want)
     STATS["bernoulli._nll::entries_saturated_not_judged"] += int(sat.sum())
     if sat.any():
         g = got[sat]
